@@ -24,24 +24,27 @@ import (
 )
 
 type caseCfg struct {
-	et         bool
-	chunk      int
-	bufcap     int
-	proto      string // tcp | unix | udp
-	reuseport  bool
-	udp        bool
-	sndbuf     int
-	pClose     int // per mille
-	pShutdown  int
-	pOpenReply int // percent
-	pDrain     int
-	maxCalls   int
-	pElClose   int
-	writeSizes []int
-	steps      int
-	maxConns   int
-	inject     []inject
-	focus      string
+	et             bool
+	chunk          int
+	bufcap         int
+	proto          string // tcp | unix | udp
+	reuseport      bool
+	udp            bool
+	sndbuf         int
+	pClose         int // per mille
+	pShutdown      int
+	pOpenReply     int // percent
+	pDrain         int
+	maxCalls       int
+	pElClose       int
+	pCross         int
+	crossCloseOnly bool
+	scenario       string
+	writeSizes     []int
+	steps          int
+	maxConns       int
+	inject         []inject
+	focus          string
 }
 
 func (c *caseCfg) header() []string {
@@ -83,12 +86,45 @@ func genCfg(rnd *tr.Rand, focus string) *caseCfg {
 	c.pDrain = rnd.Pick([]int{30, 80, 100})
 	c.maxCalls = rnd.Pick([]int{0, 2, 4})
 	c.pElClose = rnd.Pick([]int{0, 0, 2})
+	c.pCross = rnd.Pick([]int{0, 0, 6})
 	c.writeSizes = []int{0, 1, 10, 1000, 5000}
 	if c.sndbuf > 0 {
 		c.writeSizes = append(c.writeSizes, 70000, 300000)
 	}
 	c.steps = rnd.Range(4, 30)
 	c.maxConns = rnd.Range(1, 3)
+	if strings.HasPrefix(focus, "scenario:") {
+		c.scenario = strings.TrimPrefix(focus, "scenario:")
+		c.et, c.chunk, c.bufcap, c.proto, c.reuseport, c.sndbuf = false, 0, 65536, "tcp", true, 0
+		c.pClose, c.pShutdown, c.pOpenReply, c.pCross, c.pElClose, c.inject = 0, 0, 0, 0, 0, nil
+		c.maxConns, c.steps = 1, 0
+		switch c.scenario {
+		case "read-after-close":
+			c.et = true
+		case "write-after-close", "shutdown-from-onclose":
+			c.inject = []inject{{name: "wr", index: 0, kind: "epipe", cid: -1}}
+		case "onopen-reply-order":
+			c.sndbuf, c.pOpenReply = 4096, 100
+		case "lt-partial-flush":
+			c.sndbuf = 4096
+		case "stale-del":
+			c.maxConns = 2
+			c.bufcap = 1024 // level-triggered: both connections stay readable, so they share epoll_wait batches
+		case "queued-write-after-close":
+			c.et, c.chunk, c.sndbuf = true, 1024, 4096
+		}
+		return c
+	}
+	if focus == "stale" {
+		// the reactor's stale-event branch: a callback closes ANOTHER connection that has an
+		// event pending in the same batch
+		c.maxConns = 2
+		c.pCross = 60
+		c.pClose, c.pShutdown, c.pElClose = 0, 0, 0
+		c.steps = rnd.Range(8, 16)
+		c.maxCalls = 2
+		c.crossCloseOnly = true
+	}
 	if focus == "fault" {
 		c.maxConns = rnd.Range(2, 3)
 		c.steps = rnd.Range(12, 30)
@@ -305,11 +341,57 @@ func runCase(w *tr.Writer, seed uint64, idx int, focus string) {
 		return n
 	}
 
+	if cfg.scenario != "" {
+		// fixed peer behaviour: connect maxConns peers, everyone sends 100 bytes at once, then read everything
+		for len(peers) < cfg.maxConns {
+			seq := rec.seq()
+			c, err := net.Dial(dialNet, dialAddr)
+			if err != nil {
+				break
+			}
+			p := &peer{conn: c, cid: -1}
+			peers = append(peers, p)
+			woken(seq, 2*time.Second)
+			quiet()
+			rec.mu.Lock()
+			p.cid = rec.nextCid - 1
+			rec.mu.Unlock()
+		}
+		seq := rec.seq()
+		for _, p := range peers {
+			data := rnd.Bytes(map[bool]int{true: 6000, false: 100}[cfg.scenario == "stale-del"])
+			n, _ := p.conn.Write(data)
+			p.sent = append(p.sent, data[:n]...)
+		}
+		woken(seq, 500*time.Millisecond)
+		quiet()
+		for round := 0; round < 200; round++ {
+			got := 0
+			for _, p := range peers {
+				got += recvSome(p, 1<<20, 3*time.Millisecond)
+			}
+			quiet()
+			if got == 0 && round > 3 {
+				break
+			}
+		}
+		w.Hist("scenario-" + cfg.scenario)
+	}
 	for step := 0; step < cfg.steps && !engineDown(); step++ {
 		lp := live()
 		k := rnd.Intn(100)
 		seq := rec.seq()
 		switch {
+		case cfg.focus == "stale" && len(lp) >= 2 && rnd.Chance(50):
+			// both peers send before the loop wakes: two ready events in one epoll_wait batch
+			for _, p := range lp[:2] {
+				data := rnd.Bytes(rnd.Pick([]int{1, 50, 500}))
+				p.conn.SetWriteDeadline(time.Now().Add(time.Second))
+				n, _ := p.conn.Write(data)
+				p.sent = append(p.sent, data[:n]...)
+			}
+			w.Hist("burst-send")
+			woken(seq, 100*time.Millisecond)
 		case cfg.udp:
 			// UDP: senders are unconnected sockets; every datagram is one event
 			if len(peers) < cfg.maxConns || len(lp) == 0 {
@@ -484,10 +566,6 @@ func runCase(w *tr.Writer, seed uint64, idx int, focus string) {
 	lap("drain")
 	// ---- stop
 	if !engineDown() {
-		rec.mu.Lock()
-		rec.shutdown = true
-		rec.add("op", tr.L("stop"))
-		rec.mu.Unlock()
 		ctx, cancel := context.WithTimeout(context.Background(), 5*time.Second)
 		go func() { h.eng.Stop(ctx); cancel() }()
 		stopped = true
